@@ -268,6 +268,28 @@ func MetaUnits(thorough bool) []Unit {
 		}
 	}})
 
+	// every pair of one-byte entries (an indirect entry may name an earlier, non-black one: it
+	// is opaque black all the same), and every third entry after two direct ones
+	us = append(us, Unit{Name: "meta/palette-pairs", Each: func(yield func([]byte) bool) {
+		var buf []byte
+		for a := 0; a < 256; a++ {
+			for b := 0; b < 256; b++ {
+				buf = BuildMeta(buf, 1, 1, []Chunk{ch(1, []byte{0x01, byte(a), byte(b)})})
+				if !yield(buf) {
+					return
+				}
+			}
+			buf = BuildMeta(buf, 1, 1, []Chunk{ch(1, []byte{0x02, 0x30, 0x7c, byte(a)})})
+			if !yield(buf) {
+				return
+			}
+			buf = BuildMeta(buf, 1, 2, []Chunk{ch(0, defVB()), ch(1, []byte{0x02, 0x63, byte(a), 0x18})})
+			if !yield(buf) {
+				return
+			}
+		}
+	}})
+
 	uniform := [4][][]byte{
 		{{0x00}, {0x7c}, {0x7d}, {0x7e}, {0x7f}, {0x80}, {0xc5}, {0x30}, {0xff}},
 		{{0x00, 0x0f}, {0xff, 0xff}, {0x88, 0x88}, {0xf0, 0x08}, {0x12, 0x34}, {0x00, 0x00}},
